@@ -97,6 +97,11 @@ impl<'tcx> Cx<'tcx> {
         self.fix(self.tcx.def_path_str(d))
     }
 
+    /// crate-qualified definition path: identical from every crate (no re-export sugar)
+    fn dp(&self, d: DefId) -> String {
+        format!("{}{}", self.tcx.crate_name(d.krate), self.tcx.def_path(d).to_string_no_crate_verbose())
+    }
+
     fn tys(&self, t: Ty<'tcx>) -> String {
         self.fix(format!("{}", t))
     }
@@ -242,6 +247,7 @@ impl<'tcx> Cx<'tcx> {
         let mut pairs = vec![("k", js("const")), ("ty", js(&self.tys(ty)))];
         if let ty::FnDef(def_id, args) = ty.kind() {
             pairs.push(("fn", js(&self.path(*def_id))));
+            pairs.push(("fn_dp", js(&self.dp(*def_id))));
             pairs.push(("gargs", arr(args.iter().map(|a| js(&self.fix(format!("{}", a)))).collect())));
             return obj(pairs);
         }
@@ -337,6 +343,7 @@ impl<'tcx> Cx<'tcx> {
                     AggregateKind::Closure(did, _) => {
                         pairs.push(("ak", js("closure")));
                         pairs.push(("closure", js(&self.path(*did))));
+                        pairs.push(("closure_dp", js(&self.dp(*did))));
                         let mut names = vec![];
                         if let Some(l) = did.as_local() {
                             for c in self.tcx.closure_captures(l) {
@@ -418,6 +425,7 @@ impl<'tcx> Cx<'tcx> {
                 let fty = func.ty(body, self.tcx);
                 if let ty::FnDef(def_id, gargs) = fty.kind() {
                     pairs.push(("callee", js(&self.path(*def_id))));
+                    pairs.push(("callee_dp", js(&self.dp(*def_id))));
                     pairs.push(("callee_local", jb(def_id.is_local())));
                     pairs.push(("callee_crate", js(self.tcx.crate_name(def_id.krate).as_str())));
                     pairs.push(("callee_name", js(self.tcx.item_name(*def_id).as_str())));
@@ -435,6 +443,7 @@ impl<'tcx> Cx<'tcx> {
                     if let Ok(Some(inst)) = ty::Instance::try_resolve(self.tcx, env, *def_id, gargs) {
                         let rd = inst.def_id();
                         pairs.push(("resolved", js(&self.path(rd))));
+                        pairs.push(("resolved_dp", js(&self.dp(rd))));
                         pairs.push(("resolved_local", jb(rd.is_local())));
                         pairs.push((
                             "resolved_kind",
@@ -540,6 +549,7 @@ impl<'tcx> Cx<'tcx> {
         let body = tcx.optimized_mir(def_id);
         let mut pairs: Vec<(&str, String)> = vec![];
         pairs.push(("path", js(&self.path(def_id))));
+        pairs.push(("dp", js(&self.dp(def_id))));
         pairs.push(("kind", js(&format!("{:?}", kind))));
         let name = match kind {
             DefKind::Closure => "{closure}".to_string(),
